@@ -35,12 +35,24 @@
 (* proof gets the full announcement back, directly) is not a relay to        *)
 (* peers and not modelled.  Restart: the gossiper is stopped and a new one   *)
 (* started on the same graph and the same WaitingProofStore.                 *)
+(*                                                                         *)
+(* RemoteChan (follow-up b20d): the full channel_announcement of one of OUR  *)
+(* channels may also reach us from the network (a peer relays what the       *)
+(* counterparty broadcast, or makes one up).  ProcessRemoteAnnouncement       *)
+(* refuses it before it is queued ("ignoring remote ChannelAnnouncement1 for  *)
+(* own channel"): whatever its four signatures are worth (attribute `bad`:    *)
+(* "none", "nsig" - node signature 2 does not verify -, "bsig" - bitcoin      *)
+(* signature 1 does not verify) and whatever the state of the edge, nothing   *)
+(* changes, nothing is relayed, no reject-cache entry is made (RejectOwn).    *)
+(* So the ONLY way the proof of an own channel gets into the graph is the     *)
+(* assembly from two halves above.                                            *)
 (***************************************************************************)
 EXTENDS Naturals, Sequences, FiniteSets, TLC
 
 CONSTANTS OwnChans,   \* own channels, a subset of {1, 2}
           Unknown,    \* channel ids that neither the graph nor the channel database knows
-          ASBad       \* validity attributes of a half
+          ASBad,      \* validity attributes of a half
+          RCBad       \* validity attributes of a full announcement of an own channel coming from the network
 
 Sides == {"local", "remote"}
 Opp(s) == IF s = "local" THEN "remote" ELSE "local"
@@ -57,9 +69,11 @@ AllFour(x, y) == HalfSigs(x) = {"n", "b"} /\ HalfSigs(y) = {"n", "b"}
 LCMsg(c) == [t |-> "LC", c |-> c, side |-> "-", bad |-> "-", from |-> "-"]
 ASMsg(c, s, b, f) == [t |-> "AS", c |-> c, side |-> s, bad |-> b, from |-> f]
 RSMsg == [t |-> "RS", c |-> 0, side |-> "-", bad |-> "-", from |-> "-"]
+RCMsg(c, b) == [t |-> "RC", c |-> c, side |-> "-", bad |-> b, from |-> "-"]
+RCUniverse == {RCMsg(c, b) : c \in OwnChans, b \in RCBad}
 ASUniverse == {ASMsg(c, "local", b, "-") : c \in OwnChans \cup Unknown, b \in ASBad} \cup
               {ASMsg(c, "remote", b, f) : c \in OwnChans \cup Unknown, b \in ASBad, f \in {"party", "stranger"}}
-PUniverse == {LCMsg(c) : c \in OwnChans} \cup ASUniverse \cup {RSMsg}
+PUniverse == {LCMsg(c) : c \in OwnChans} \cup ASUniverse \cup {RSMsg} \cup RCUniverse
 
 VARIABLES edge,     \* OwnChans -> "none" / "noproof" (in the graph, unannounced) / "proof"
           w,        \* OwnChans -> [local, remote]: the half in the WaitingProofStore ("-" = none, else its attribute)
@@ -88,6 +102,13 @@ LocalChan(c) ==
           /\ edge' = [edge EXCEPT ![c] = "noproof"]
           /\ UNCHANGED <<w, proof, prelayed>>
 
+(* ProcessRemoteAnnouncement: the announcement of our own channel as relayed *)
+(* by some peer of the network is refused before it reaches any handler      *)
+RemoteChan(m) ==
+  /\ m.t = "RC"
+  /\ nmsg' = nmsg + 1
+  /\ PNop("RejectOwn", "err")
+
 (* handleAnnSig *)
 AnnSig(m) ==
   /\ m.t = "AS"
@@ -110,7 +131,8 @@ AnnSig(m) ==
 
 Restart == /\ nmsg' = nmsg + 1 /\ PNop("Restart", "-")
 
-PStep(m) == IF m.t = "LC" THEN LocalChan(m.c) ELSE IF m.t = "RS" THEN Restart ELSE AnnSig(m)
+PStep(m) == IF m.t = "LC" THEN LocalChan(m.c) ELSE IF m.t = "RS" THEN Restart
+            ELSE IF m.t = "RC" THEN RemoteChan(m) ELSE AnnSig(m)
 PNext == \E m \in PUniverse : PStep(m)
 PSpec == PInit /\ [][PNext]_pvars
 
@@ -121,6 +143,7 @@ ProofAuthentic == \A c \in OwnChans : edge[c] = "proof" => Len(proof[c]) = 2 /\ 
 \* the assembled announcement is relayed only for a channel whose authentic proof is in the graph
 RelayedHasProof == \A c \in prelayed : edge[c] = "proof"
 \* a proof enters the graph only by a half that, with the stored opposite half, makes four verifying signatures
+\* (never by an announcement from the network)
 ProofOnlyByFour ==
   [][\A c \in OwnChans : (edge'[c] = "proof" /\ edge[c] # "proof") =>
         \E m \in ASUniverse : /\ m.c = c /\ m.from # "stranger" /\ edge[c] = "noproof"
